@@ -121,7 +121,8 @@ def drive(cls, method, uri, capture, settings, kw):
 
 QUERIES = ["", "?a=1", "?//h"]
 STUBS = ["request = real HTTPServerRequest over a recording connection with uri = symbolic path (starts with '/', "
-         "no CTL/space: the request-target grammar, C01) + pooled query; virtual loop, fixed clock, logging off",
+         "code points <= U+00FF as HTTP1Connection's latin-1 decoding delivers them, no CTL/space: the request-target "
+         "grammar, C01) + pooled query; virtual loop, fixed clock, logging off",
          "static: tornado.web.os shim where every path is an existing directory (maximises the directory redirect), "
          "normpath/abspath = CPython's pure-Python fallback (see C26); root /r/root, default_filename set; the routing "
          "capture is path[1:] (catch-all pattern '/(.*)')"]
@@ -135,22 +136,50 @@ def classify_slash(kind, head, path, qi):
     return None
 
 
+def shard_table(L):
+    """(kind, len(path), query index or None, head or None) per shard.  Long paths fork most (every free
+    code point forks in utf8(), the header-character regex and lstrip), so they are split further."""
+    t = []
+    for kind in range(3):
+        for n in range(1, L + 1):
+            if n <= 3:
+                t.append((kind, n, None, None))
+            elif n == 4:
+                for qi in range(len(QUERIES)):
+                    t.append((kind, n, qi, None))
+            else:
+                for qi in range(len(QUERIES)):
+                    for hd in (False, True):
+                        t.append((kind, n, qi, hd))
+    return t
+
+
 def pre_slash(kind: int, head: bool, path: str, qi: int) -> bool:
     if len(P.exclude) > 0 and len(path) > 1:
         if "slash-decorator-protocol-relative" in P.exclude and path[1] == "/" and kind in (0, 1):
             return False
         if "backslash-protocol-relative" in P.exclude and path[1] == "\\":
             return False
+    if P.nshards > 1:
+        # pinned per shard by equality with concrete values (see shard_table)
+        sk, sn, sq, sh = shard_table(P.L)[P.shard]
+        if kind != sk or len(path) != sn:
+            return False
+        if sq is not None and qi != sq:
+            return False
+        if sh is not None and head != sh:
+            return False
     if not (0 <= kind <= 2 and 0 <= qi < len(QUERIES) and 1 <= len(path) <= P.L and path[0] == "/"):
         return False
     for ch in path:
-        if ch <= " " or ch == "\x7f" or ch == "?" or ch == "#":
+        # request-target as HTTP1Connection delivers it: latin-1 decoded bytes, no CTL/space (C01)
+        if ch <= " " or ch == "\x7f" or ch == "?" or ch == "#" or ch > "\xff":
             return False
-    return in_shard(kind + 3 * len(path))
+    return True
 
 
-@harness(pre=pre_slash, quick=dict(L=4, timeout=120, reach_timeout=90), thorough=dict(L=6, timeout=1400),
-         nshards=dict(quick=15, thorough=21),
+@harness(pre=pre_slash, quick=dict(L=4, timeout=150, reach_timeout=90), thorough=dict(L=6, timeout=1400),
+         nshards=dict(quick=len(shard_table(4)), thorough=len(shard_table(6))),
          reach=["rm_redirect", "add_redirect", "static_redirect", "no_redirect"],
          classify=classify_slash,
          units=["web.removeslash", "web.addslash", "web.StaticFileHandler.validate_absolute_path",
